@@ -20,7 +20,7 @@ def refreshStates : SState → List (AccKey × Nat) → List SState
 (`p/q = 10⁻¹⁸` is exchange rate one), and minting up to `m` tokens stays inside the 256-bit ranges. -/
 def healthyB (p q m : Int) (v : Nat) (st : SState) : Bool :=
   decide (0 < (st.k.val v).tokens ∧ 0 < (st.k.val v).shares ∧ (st.k.val v).tokens * q ≤ p * (st.k.val v).shares ∧
-    (st.k.val v).shares * (m + 1) ≤ decUpper ∧ (st.k.val v).tokens + m < I256)
+    (st.k.val v).shares * (m + 1) ≤ decUpper ∧ (st.k.val v).tokens + m < powLimit)
 
 /-- 1 if account `k` of validator `v` lost shares between `s` and `s1` (a force-undelegation), else 0. -/
 def lostShares (v : Nat) (s s1 : SState) (k : AccKey) : Nat :=
@@ -40,7 +40,7 @@ structure Healthy (p q m : Int) (v : Nat) (st : SState) : Prop where
   S : 0 < (st.k.val v).shares
   rate : (st.k.val v).tokens * q ≤ p * (st.k.val v).shares
   rS : (st.k.val v).shares * (m + 1) ≤ decUpper
-  rT : (st.k.val v).tokens + m < I256
+  rT : (st.k.val v).tokens + m < powLimit
 
 theorem healthy_of_B {p q m : Int} {v : Nat} {st : SState} (h : healthyB p q m v st = true) : Healthy p q m v st := by
   unfold healthyB at h
